@@ -31,13 +31,34 @@ BRACKETS = {"[", "]"}
 def tables(ctx, u):
     """{function: ({tag: class}, default class, site)}"""
     out = {}
-    hr, hr_other, fn = T.has_reserved_table(u)
-    out["has_reserved"] = ({t: ("payload" if c == "payload" else "none") for t, c in hr.items()}, hr_other, A.where(fn), None)
+    # (a function that is not written as the table extraction expects is left out of the table comparison: what it
+    # computes is decided by the evaluations R01.9 / R01.10 on probe messages)
+    try:
+        hr, hr_other, fn = T.has_reserved_table(u)
+        out["has_reserved"] = ({t: ("payload" if c == "payload" else "none") for t, c in hr.items()}, hr_other, A.where(fn), None)
+    except AnalysisBroken as e:
+        ctx.notes.append("has_reserved: no tag table by shape (%s)" % e)
     for name in ("vsosc_null", "rtosc_amessage", "rtosc_message_ring_length"):
-        tab, dflt, sw, cur, fn = T.loop_switch_summaries(u, name)
-        out[name] = ({t: C.classify(s.items) for t, s in tab.items()}, C.classify(dflt.items) if dflt else "none", A.where(sw), tab)
-    tab, dflt, guard, sw, fn = T.arg_size_table(u)
-    out["arg_size"] = ({t: C.classify(s.items) for t, s in tab.items()}, ("none" if guard else "unguarded"), A.where(sw), tab)
+        try:
+            tab, dflt, sw, cur, fn = T.loop_switch_summaries(u, name)
+            out[name] = ({t: C.classify(s.items) for t, s in tab.items()}, C.classify(dflt.items) if dflt else "none", A.where(sw), tab)
+        except AnalysisBroken as e:
+            if name == "rtosc_message_ring_length":
+                ctx.notes.append("rtosc_message_ring_length: no tag table by shape (%s)" % e)
+                continue
+            # not a tag switch inside a loop: the classes are read off evaluations on one-argument messages (rules/oscref.py)
+            from ..rules import oscref as _O
+            from .. import fdeval as _FD
+            try:
+                ev_tab = _O.builder_classes_eval(u, name, sorted(set(SPEC) | set("xq")))
+            except _FD.Unknown as e:
+                raise AnalysisBroken("%s: neither a tag switch in a loop nor evaluable: %s" % (name, e))
+            out[name] = ({t: s.cls for t, s in ev_tab.items() if t in SPEC}, ev_tab["x"].cls, A.where(u.function(name)), ev_tab)
+    try:
+        tab, dflt, guard, sw, fn = T.arg_size_table(u)
+        out["arg_size"] = ({t: C.classify(s.items) for t, s in tab.items()}, ("none" if guard else "unguarded"), A.where(sw), tab)
+    except AnalysisBroken as e:
+        ctx.notes.append("arg_size: no tag table by shape (%s)" % e)
     try:
         # the classes are read off an evaluation of the decoder per tag (independent of how it is written) ...
         cls, fn = T.extract_arg_classes_eval(u)
@@ -70,6 +91,8 @@ def run(ctx):
     ctx.rule("R01.4", "CURSOR: a loop over the type-tag string classifies only an element it NUL-tested in the same iteration, "
                       "and the characters skipped as non-arguments are exactly '[' and ']'")
     ctx.rule("R01.8", "ITERATOR-TAGS: rtosc_itr_begin / rtosc_itr_next / rtosc_itr_end, evaluated on probe type strings with nested, adjacent and empty arrays, yield every tag except '[' and ']' in order - the tags rtosc_narguments counts and rtosc_type indexes")
+    ctx.rule("R01.9", "CONFORMANCE (builder): vsosc_null and rtosc_amessage, evaluated on 65 probe messages (every tag, address lengths 2..6, strings of 0..5 and blobs of 0..6 bytes with and without data, nested brackets, value bytes with the top bit set), return the length and write the bytes that OSC 1.0 prescribes")
+    ctx.rule("R01.10", "CONFORMANCE (readers): on the specified encoding of the same probe messages rtosc_narguments, rtosc_argument_string and rtosc_type answer with the message's tags, and rtosc_argument hands its decoder the tag and the offset at which that argument lies")
     ctx.rule("R01.5", "VAARG: for every tag rtosc_v2args takes the default-promoted C type and stores into the union member whose "
                       "width equals the payload the writer emits from its member")
     ctx.rule("R01.6", "SHARED-DECODER/FORWARD: rtosc_argument and rtosc_itr_next decode through extract_arg and arg_size; "
@@ -87,7 +110,7 @@ def run(ctx):
             ctx.ob("R01.1", "%s['%s']" % (fname, tag), got == exp, site=site,
                    detail={"function": fname, "tag": tag, "expected": exp, "found": got},
                    what="%s treats tag '%s' as %s, OSC 1.0 says %s" % (fname, tag, got, exp))
-    ctx.require_count("R01.1", 7 * 17)
+    ctx.require_count("R01.1", 3 * 17)      # the decoder, the vararg unpacker and at least one more table; the rest is decided by R01.9 / R01.10
 
     # ---- R01.2
     n = 0
@@ -115,14 +138,18 @@ def run(ctx):
 
     # ---- R01.3
     pad_obligations(ctx, u, "R01.3", ["vsosc_null", "rtosc_amessage", "arg_start", "arg_off", "arg_size", "rtosc_message_ring_length"])
-    ctx.require_count("R01.3", 15)
+    ctx.require_count("R01.3", 6)     # how many alignment steps the code spells out is its business (helpers merge them); what they add up to is decided by R01.9
 
     # ---- R01.4
     seen_sets = {}
     for q in ["nreserved", "rtosc_narguments", "rtosc_type", "arg_off", "advance_past_dummy_args"]:
         fn = u.function(q)
         loops = K.char_cursor_loops(u, fn)
-        ctx.require(loops, "R01.4: no type-string loop found in " + q)
+        if not loops:
+            # no hand-written loop over the type string here (e.g. strspn / a shared helper): what the function answers is
+            # decided by the readers' evaluation on probe type strings with brackets (R01.10, R01.8)
+            ctx.notes.append("R01.4: no type-string loop in %s (decided by R01.10)" % q)
+            continue
         for lp, c in loops:
             tr = K.analyse_loop(lp, c)
             cname = u.by_id[c].get("name")
@@ -142,7 +169,7 @@ def run(ctx):
     for inst, (lits, site) in seen_sets.items():
         ctx.ob("R01.4", "skipset:" + inst.split("@")[0], lits == BRACKETS, site=site, detail={"characters": sorted(lits)},
                what="non-argument characters skipped here are %s, expected ['[', ']']" % sorted(lits))
-    ctx.require_count("R01.4", 9)
+    ctx.require_count("R01.4", 3)
 
     # ---- R01.8: the iterator's walk over the type string, evaluated on probe type strings
     from ..rules import itertags as IT
@@ -160,6 +187,43 @@ def run(ctx):
                key="R01.8:%s" % ts,
                what="the iterator yields %s for the type string \"%s\"; its value tags are %s (rtosc_narguments / rtosc_type skip every '[' and ']')" % (got, ts, want))
     ctx.require_count("R01.8", 12)
+
+    # ---- R01.9: sizer and writer evaluated on probe messages against the encoding the specification prescribes
+    from ..rules import oscref as OR
+    groups9 = {}
+    for adr9, ty9, va9 in OR.PROBES:
+        groups9.setdefault(("address length %d mod 4" % (len(adr9) % 4)) if adr9 not in ("/p", "/s", "/b", "/t", "/x", "/y") else
+                           {"/p": "fixed-width tags", "/s": "strings", "/b": "blobs", "/t": "tags without payload", "/x": "arrays and all tags", "/y": "several arguments"}[adr9], []).append((adr9, ty9, va9))
+    for g9, probes9 in sorted(groups9.items()):
+        bad9 = []
+        for adr9, ty9, va9 in probes9:
+            ref9 = OR.encode(adr9, ty9, va9)
+            try:
+                r9, m9 = OR.run_builder(u, "rtosc_amessage", adr9, ty9, va9)
+                s9, _ = OR.run_builder(u, "vsosc_null", adr9, ty9, va9)
+            except _FD8.Unknown as e:
+                raise AnalysisBroken("R01.9: builder not evaluable on (%r, %r): %s" % (adr9, ty9, e))
+            w9 = m9.written(len(ref9))
+            if r9 != len(ref9) or s9 != len(ref9) or w9 != ref9 or m9.oob:
+                bad9.append({"address": adr9, "types": ty9, "sizer": s9, "writer_returns": r9, "specified_length": len(ref9),
+                             "written": w9.hex(), "specified": ref9.hex()})
+        ctx.ob("R01.9", g9, not bad9, site=A.where(u.function("rtosc_amessage")), detail={"messages": len(probes9), "mismatches": bad9[:3]},
+               key="R01.9:%s" % g9,
+               what="the message builder, evaluated on probe messages (%s), does not produce the OSC 1.0 encoding: %s" % (g9, bad9[:2]))
+
+    # ---- R01.10: the readers evaluated on the specified encoding of the same probe messages
+    for g9, probes9 in sorted(groups9.items()):
+        bad10 = []
+        for adr9, ty9, va9 in probes9:
+            try:
+                rb = OR.reader_checks(u, adr9, ty9, va9)
+            except _FD8.Unknown as e:
+                raise AnalysisBroken("R01.10: readers not evaluable on (%r, %r): %s" % (adr9, ty9, e))
+            if rb:
+                bad10.append({"address": adr9, "types": ty9, "problems": rb[:3]})
+        ctx.ob("R01.10", g9, not bad10, site=A.where(u.function("rtosc_argument")), detail={"messages": len(probes9), "mismatches": bad10[:3]},
+               key="R01.10:%s" % g9,
+               what="the readers, evaluated on the specified encoding of probe messages (%s), do not find the arguments where they lie: %s" % (g9, bad10[:2]))
 
     # ---- R01.5
     v2, _, sw, fn = T.v2args_table(u)
@@ -236,7 +300,11 @@ def pad_obligations(ctx, u, rule, fnames):
                 elif prev == "len" or isinstance(prev, int):
                     exp = "pad"
                 else:
-                    raise AnalysisBroken("%s: cannot tell which field the alignment step at %s follows" % (rule, A.where(s)))
+                    # which field the step follows cannot be told from the statements in front of it (the field length may
+                    # come out of a helper): this step is left to the evaluations on probe messages (R01.9 / R01.10), which
+                    # exercise every field length mod 4
+                    ctx.notes.append("%s: alignment step at %s not classified (decided by R01.9/R01.10)" % (rule, A.where(s)))
+                    continue
                 ctx.ob(rule, "%s:pad@%s" % (q, "after-" + ("string" if exp == "pad+" else "blob") + "#%d" % sum(1 for o in ctx.obs if o.rule == rule and o.instance.startswith(q + ":"))),
                        kind == exp, site=A.where(s),
                        detail={"statement": A.src(s), "table_pos_mod4": list(table) if not isinstance(table, dict) else table, "expected": exp, "found": kind},
